@@ -14,7 +14,7 @@ Vectors(n) == {Unit(n, k) : k \in Ks(n)} \cup {Pat(n, 3, 5), Pat(n, 0, P - 1)}
 Points(n) == {0, 1, 2, P - 1, 5} \cup {Nodes(n)[i] : i \in (IF n <= 8 THEN 1..n ELSE {1, 2, n \div 2 + 1, n})} \cup (IF 2 * n <= Pow2(LOGN) THEN {RootN(2 * n)} ELSE {})
 
 VARIABLE st
-Init == st \in [op : {"ntt", "ntt_s", "ntt_inv", "ntt_short", "eval", "extend", "double", "mul", "roots", "inv_roundtrip"}, n : Sizes]
+Init == st \in [op : {"ntt", "ntt_s", "ntt_inv", "ntt_short", "inv_short", "eval", "extend", "double", "mul", "roots", "inv_roundtrip"}, n : Sizes]
            \cup {[op |-> "range", n |-> 1], [op |-> "verdicts", n |-> 1]}
 Tasks(s) ==
   LET n == s.n IN
@@ -23,6 +23,9 @@ Tasks(s) ==
     [] s.op = "ntt_short" ->  \* inputs shorter and longer than the transform size
          {[op |-> "ntt", n |-> n, inp |-> v, sets |-> FALSE, out |-> NttDef(v, n, FALSE)] :
               v \in {Pat(m, 2, 1) : m \in {k \in {1, n \div 2, n - 1, n + 1, 2 * n} : k >= 1}}}
+    [] s.op = "inv_short" ->  \* the inverse transform of inputs shorter (zero-padded) and longer (cut) than the transform size
+         {[op |-> "ntt_inv", n |-> n, inp |-> v, out |-> NttInvDef(v, n)] :
+              v \in {Pat(m, 2, 1) : m \in {k \in {1, n \div 2, n - 1, n + 1, 2 * n} : k >= 1}} \cup {Unit(m, m) : m \in {k \in {1, n \div 2, n - 1} : k >= 1}}}
     [] s.op = "ntt_inv" -> {[op |-> "ntt_inv", n |-> n, inp |-> v, out |-> NttInvDef(v, n)] : v \in Vectors(n)}
     [] s.op = "inv_roundtrip" -> {[op |-> "ntt_inv", n |-> n, inp |-> NttDef(v, n, FALSE), out |-> v] : v \in {Pat(n, 3, 5), Pat(n, 7, 1)}}
     [] s.op = "eval" -> {[op |-> "eval", n |-> n, polys |-> <<v, Pat(n, 1, 2)>>, x |-> x, out |-> <<LagrangeEval(v, x), LagrangeEval(Pat(n, 1, 2), x)>>] :
